@@ -416,6 +416,36 @@ fn roundtrip_enum_impl(nkeys: usize, name: &str) {
 												}
 											}
 										}
+										// SEEK INSIDE A BOUNDED CURSOR whose inclusive upper bound carries a sequence number (bounds are user-key
+										// bounds: every version of the bound key is inside): seek(target) lands on the first entry of the bounded
+										// walk at or after the target
+										if bad.is_none() && block_size == 32 && restart == 1 {
+											'ub: for kb in &universe {
+												for &sb in &[9u64, 5] {
+													let range = (Bound::Unbounded, Bound::Included(InternalKey::new(kb.clone(), sb, InternalKeyKind::Set, 0)));
+													let inside: Vec<&(InternalKey, Vec<u8>)> = entries.iter().filter(|(ik, _)| &ik.user_key <= kb).collect();
+													for k in &universe {
+														for &s in &[10u64, 6, 4, 1] {
+															let target = InternalKey::new(k.clone(), s, InternalKeyKind::Set, 0);
+															let want = inside.iter().find(|(ik, _)| icmp.compare(&ik.encode(), &target.encode()) != Ordering::Less).map(|(ik, _)| ik.encode());
+															let got = match t.iter(Some(range.clone())) {
+																Err(e) => Err(e.to_string()),
+																Ok(mut it) => match it.seek(&target.encode()) {
+																	Ok(true) => Ok(Some(it.key().encoded().to_vec())),
+																	Ok(false) => Ok(None),
+																	Err(e) => Err(e.to_string()),
+																},
+															};
+															if got != Ok(want.clone()) {
+																bad = Some(format!("cursor bounded above by included({}@{}): seek({}@{}) gives {:?}, the first entry inside the bounds at or after the target is {:?}", show(kb), sb, show(k), s,
+																	got.as_ref().map(|o| o.as_ref().map(|g| { let ik = InternalKey::decode(g); format!("{}@{}", show(&ik.user_key), ik.seq_num()) })), want.as_ref().map(|g| { let ik = InternalKey::decode(g); format!("{}@{}", show(&ik.user_key), ik.seq_num()) })));
+																break 'ub;
+															}
+														}
+													}
+												}
+											}
+										}
 										if bad.is_none() {
 											for k in &universe {
 												for &s in &[10u64, 9, 6, 5, 1] {
